@@ -191,4 +191,14 @@ PROPS = {
         "assumptions": ["single-threaded scenarios; the close-vs-in-flight-call race (DESIGN F1) needs the pause-point hooks and is not yet exercised"],
         "explanation": "Lean: automaton theorems (accepted stream = exactly one close, as the last call; read-only stream has no mutation), layout arithmetic (an in-range page lies inside the file; regions disjoint); correspondence: recorded call streams accepted; oracle: backend monitor (bounds, close count, call after close, read-only mutation)",
     },
+    "C12": {
+        "props_module": "RedbModel.Props.C12",
+        "streams": [("corrupt", [], "corrupt")],
+        "rule": "a case = one cleanly closed base image (page 512, all commit points of its history recorded); alterations: every header byte (xor 0xff; +1), every bit of the god byte, bits of the layout fields, per non-empty page sampled bytes (xor / +1, biased to the checksummed prefix), the page-type and count bytes, a run of 2-64 bytes, swaps of page pairs; "
+                "each altered file is opened, check_integrity'd (twice after Ok(false)) and read back under catch_unwind; an evaluation is one alteration; accepted images are also given to the Lean recovery model",
+        "trusted_base": BASE_TRUST + ["XXH3-128 is idealised as injective (explicit hypothesis of the binding theorems, never an axiom)"],
+        "assumptions": ["a panic during open/check is neither a certificate nor a report: counted separately (observation O1), never a C12 violation by itself"],
+        "explanation": "Lean: checksum binding (same verified slot / root checksum implies same covered bytes and same decoded tree), served slot is one whole commit point; harness: Ok(true)/Ok(false) only with the contents of a recorded commit point, second check after a repair returns Ok(true); counts per verdict class in the evidence",
+        "timeout": 7000,
+    },
 }
